@@ -19,6 +19,7 @@ mod errchk;
 mod lawchk;
 mod exact;
 mod momchk;
+mod entchk;
 
 fn main() {
     let args: Vec<String> = std::env::args().collect();
@@ -49,6 +50,7 @@ fn main() {
         "layouts" => lawchk::layouts(&mut cfg, &mut rep),
         "nanview" => nanchk::nanview(&mut cfg, &mut rep),
         "moments" => momchk::moments(&mut cfg, &mut rep),
+        "entropy" => entchk::entropy(&mut cfg, &mut rep),
         _ => {
             eprintln!("unknown enumeration {}", name);
             std::process::exit(4);
